@@ -26,6 +26,10 @@ PROPS = {
             "rule": "one case per recorded poisson() call (argument tuple x 2 repetitions with differently perturbed numpy RNG) validated as a trace by TLC; non-trivial = the bisection needed at least two probes",
             "assumptions": ["bisection design checked on a float lattice of 7 (quick) / 8 (thorough) points with every acceleration function", "watchdog 90 s (quick) / 240 s (thorough) per call"],
             "trusted": TLC_BASE + ["tla2tools Json module", "the harness's own ellipse / calibration-block formulas"]},
+    "C11": {"level": "model_checking", "engines": [("prox", "prox", "run")],
+            "rule": "one case per Eval state of Prox.tla (prox expression tree, alpha, exact point) replayed in every array shape with that many elements, real and complex dtype, plus curated PSD inputs; all are non-trivial (points include zeros, thresholds, boundaries, ties)",
+            "assumptions": ["expression trees with <= 1 wrapper (quick) / 2 (thorough) over 38 base configurations", "exact points: rationals and Gaussian rationals with rational moduli", "PSD projection checked on Q D Q^H with rational unitary Q (harness-side exact reference, not TLC)"],
+            "trusted": TLC_BASE + ["Rat.tla arithmetic"]},
     "C09": {
         "level": "model_checking",
         "engines": [("index_maps", "index_maps", "run")],
@@ -40,6 +44,8 @@ PROPS = {
 HOOK_COMMITS = ["609775d"]
 
 ENGINES = [
+    {"name": "prox", "path": "harness/engines/prox.py + spec/Prox.tla, Rat.tla", "serves_properties": ["C11", "C02"],
+     "kind_free_text": "TLC: closed forms vs optimality conditions over exact points; replay on Prox classes and thresh functions in all shapes"},
     {"name": "poisson", "path": "harness/engines/poisson.py + spec/PoissonSearch.tla, spec/PoissonTrace.tla", "serves_properties": ["C18"],
      "kind_free_text": "TLC safety+liveness of the bisection design; batch trace validation of recorded poisson() calls"},
     {"name": "trap", "path": "harness/engines/trap.py + spec/Trap.tla, TrapDefs.tla, Spokes.tla, Rat.tla", "serves_properties": ["C20"],
@@ -84,10 +90,16 @@ MANIFEST_TEXT = {
 }
 
 NOT_APPLICABLE = {p: "check not built yet in this round (planned, see DESIGN.md section 5)" for p in
-                  ["C05", "C06", "C07", "C08", "C10", "C11", "C12", "C13", "C14", "C16", "C17", "C19"]}
+                  ["C05", "C06", "C07", "C08", "C10", "C12", "C13", "C14", "C16", "C17", "C19"]}
 
 MANIFEST_TEXT["C18"] = {
     "text": "PoissonSearch.tla models the slope bisection on a float lattice with an arbitrary (non-monotone) acceleration function; TLC checks OkIsWithinTol and the liveness property Terminates (the loop without the collapse test is kept as a negative control that must fail). poisson() is run on the real code with _poisson wrapped under a watchdog; every call (probes as slope ranks + integer facts about the mask, RNG state crc, reproducibility memo) is validated by TLC against PoissonTrace.tla.",
     "design_ref": "DESIGN.md section 5 C18",
     "note": "Trusted: TLC, Json module, harness formulas for the calibration block and the ellipse. Shapes 16-64 quick, to 128 thorough.",
     "technique": "TLA+ design spec with liveness + trace validation of wrapped real calls"}
+
+MANIFEST_TEXT["C11"] = {
+    "text": "Prox.tla carries two independent definitions: ProxModel (closed forms transcribed from prox.py/thresh.py) and IsMinimiser (optimality condition y-x in alpha*subdifferential, per class and recursively for Conj/Stack/UnitaryTransform/L2Reg(proxh)); TLC checks ModelIsMinimiser, ShapeKept, Idempotent, FeasibleIsFixed on every evaluation over exact rational / Gaussian-rational points incl. zeros, thresholds, ball boundaries and ties. Every evaluation is replayed on the real Prox objects and thresh functions in every array shape with the same number of elements (real and complex dtype); PSD projection is checked on Q D Q^H with rational unitary Q and repeated / zero / negative eigenvalues.",
+    "design_ref": "DESIGN.md section 5 C11",
+    "note": "Trusted: TLC, Rat.tla, harness builders. Points with irrational moduli are skipped by the exact tier (Eval is disabled when a needed square root is irrational).",
+    "technique": "TLA+ closed forms vs optimality predicates (TLC) + spec-to-code replay"}
